@@ -231,14 +231,8 @@ func (cf *clientFormat) remoteSSRC() (uint32, bool) {
 }
 
 func (cf *clientFormat) readPacketRTP(payload []byte, header *rtp.Header, headerSize int, now time.Time) bool {
-	if !cf.remoteSSRCFilled {
-		cf.remoteSSRCMutex.Lock()
-		cf.remoteSSRCFilled = true
-		cf.remoteSSRCValue = header.SSRC
-		cf.remoteSSRCMutex.Unlock()
-
-		// a wrong SSRC is an issue only when encryption is enabled, since it spams srtp.Context.DecryptRTP.
-	} else if cf.cm.srtpInCtx != nil &&
+	// a wrong SSRC is an issue only when encryption is enabled, since it spams srtp.Context.DecryptRTP.
+	if cf.remoteSSRCFilled && cf.cm.srtpInCtx != nil &&
 		header.SSRC != cf.remoteSSRCValue {
 		cf.cm.onPacketRTPDecodeError(fmt.Errorf("received packet with wrong SSRC %d, expected %d",
 			header.SSRC, cf.remoteSSRCValue))
@@ -249,6 +243,14 @@ func (cf *clientFormat) readPacketRTP(payload []byte, header *rtp.Header, header
 	if err != nil {
 		cf.cm.onPacketRTPDecodeError(err)
 		return false
+	}
+
+	// store the remote SSRC only once a packet has been decoded (and authenticated, when encryption is enabled)
+	if !cf.remoteSSRCFilled {
+		cf.remoteSSRCMutex.Lock()
+		cf.remoteSSRCFilled = true
+		cf.remoteSSRCValue = header.SSRC
+		cf.remoteSSRCMutex.Unlock()
 	}
 
 	pkts, lost := cf.rtpReceiver.ProcessPacket2(pkt, now, cf.format.PTSEqualsDTS(pkt))
